@@ -274,6 +274,14 @@ type rf26 struct {
 	PG   *rfRoutesFirst `avp:"V-GRP2"`
 	UTF  string         `avp:"V-UTF8"`
 }
+type rf27 struct { // datatype-typed fields whose type is a sibling (same Go kind) of the AVP's data type
+	ID  datatype.UTF8String       `avp:"V-ID"`
+	U   datatype.OctetString      `avp:"V-UTF8"`
+	URI datatype.DiameterIdentity `avp:"V-URI"`
+	E   datatype.Integer32        `avp:"V-ENUM"`
+	OS  []datatype.UTF8String     `avp:"V-OS"`
+	PI  *datatype.Enumerated      `avp:"V-I32"`
+}
 type rf21 struct { // embedded structs after tagged fields, and between them
 	OS string `avp:"V-OS"`
 	rfEmbedded
@@ -303,6 +311,7 @@ var rfFamily = []func() interface{}{
 	func() interface{} { return new(rf15) }, func() interface{} { return new(rf16) }, func() interface{} { return new(rf17) },
 	func() interface{} { return new(rf18) }, func() interface{} { return new(rf19) }, func() interface{} { return new(rf20) },
 	func() interface{} { return new(rf25) }, func() interface{} { return new(rf26) },
+	func() interface{} { return new(rf27) },
 }
 
 // ---- walker
